@@ -573,4 +573,7 @@ static Result run_case(const Case &c) {
   });
 }
 
-int main(int argc, char **argv) { return vf_main<Case>(argc, argv, "C18", gen_case, run_case); }
+int main(int argc, char **argv) {
+  g_history_enabled = true;  // process-history mode 2 (harness/vf.h): a shadow of the case runs first in the same process
+  return vf_main<Case>(argc, argv, "C18", gen_case, run_case);
+}
